@@ -1,8 +1,8 @@
 (* C05/Cases.v — glue for the correspondence check (harness/c05.py): decoding of the generated cases
    and the comparison of the model's result with what the implementation returned.  No theorem depends
-   on this file.  Each case arrives as one string literal (the only thing coqc reads quickly): a forest of  tree ::= '(' tree* ')' | escaped-bytes ';'  with '~hh' hex escapes. *)
+   on this file.  Each case is the byte string (packed, see the end of the file) of a forest of  tree ::= '(' tree* ')' | escaped-bytes ';'  with '~hh' hex escapes. *)
 From Coq Require Import String Ascii.
-From Coq Require Import List Bool ZArith NArith Arith.
+From Coq Require Import List Bool ZArith NArith Arith Uint63.
 From Tally Require Import C05.Model.
 Import ListNotations.
 Open Scope N_scope.
@@ -172,9 +172,16 @@ Definition ok_case (t : tree) : bool :=
     end
   | _ => false
   end.
-Definition ok_string (s : string) : bool :=
-  match forest s with Some [t] => ok_case t | _ => false end.     (* undecodable: reported as failing *)
-Fixpoint failing (i : nat) (l : list string) : list nat :=
-  match l with [] => [] | c :: r => if ok_string c then failing (S i) r else i :: failing (S i) r end.
+(* Transport.  coqc reads string / number literals at ~100 microseconds per byte, primitive integers much
+   faster: a case is its byte length and its bytes packed 7 per primitive integer (big-endian). *)
+Definition byte_at (x i : int) : N := Z.to_N (Uint63.to_Z (Uint63.land (Uint63.lsr x i) 255%uint63)).
+Definition unpack7 (x : int) : bs :=
+  [byte_at x 48%uint63; byte_at x 40%uint63; byte_at x 32%uint63; byte_at x 24%uint63; byte_at x 16%uint63;
+   byte_at x 8%uint63; byte_at x 0%uint63].
+Definition unpack (c : nat * list int) : bs := firstn (fst c) (flat_map unpack7 (snd c)).
+Definition ok_packed (c : nat * list int) : bool :=
+  match ptree (unpack c) [] [] [] with Some [t] => ok_case t | _ => false end.   (* undecodable: reported as failing *)
+Fixpoint failing (i : nat) (l : list (nat * list int)) : list nat :=
+  match l with [] => [] | c :: r => if ok_packed c then failing (S i) r else i :: failing (S i) r end.
 (* the numbers of the cases on which model and implementation disagree *)
-Definition check (l : list string) : list nat := failing 0 l.
+Definition check (l : list (nat * list int)) : list nat := failing 0 l.
